@@ -111,4 +111,37 @@ CompleteBlocks(objs, listed) == { b \in BlocksIn(objs) : BlockComplete(objs, lis
 AlgoShipperFile(locals, uploadCompacted, before) ==
     { x.b : x \in { y \in locals : C35_Eligible(y, uploadCompacted) \/ y.b \in before } }
 
+(***************************************************************************)
+(* ------------------------- C31, property level ------------------------- *)
+(* A block meta is [id, src, grp]: id (distinct; the ULID order is the     *)
+(* order of ids), src = set of source blocks it was built from, grp = its  *)
+(* compaction group (resolution + external labels).  all = the metas given *)
+(* to the duplicate filter, keptIds = ids it left.                         *)
+(* "hides a block only if another block kept in the same compaction group  *)
+(*  was built from all of the hidden block's sources"                      *)
+(***************************************************************************)
+C31_Covered(b, kept) == \E k \in kept : k.id # b.id /\ k.grp = b.grp /\ b.src \subseteq k.src
+C31_KeptOf(all, keptIds) == { k \in all : k.id \in keptIds }
+C31_HiddenUncovered(all, keptIds) ==
+    { b.id : b \in { x \in all : x.id \notin keptIds /\ ~C31_Covered(x, C31_KeptOf(all, keptIds)) } }
+(* "the kept blocks together still cover every source" (per group: groups never share data) *)
+C31_SourcesOf(S) == UNION { b.src : b \in S }
+C31_SourcesLost(all, keptIds) ==
+    { g \in { b.grp : b \in all } :
+        C31_SourcesOf({ b \in all : b.grp = g }) # C31_SourcesOf({ b \in C31_KeptOf(all, keptIds) : b.grp = g }) }
+
+(* ------------------------ C31, algorithm level -------------------------- *)
+(* DefaultDeduplicateFilter.filterGroup: sort by number of sources descending, then by ULID;     *)
+(* walk the list keeping a covering set; a block whose sources are contained in the sources of   *)
+(* a member of the covering set is a duplicate, otherwise it joins the covering set.             *)
+C31_Before(a, b) == Cardinality(a.src) > Cardinality(b.src) \/ (Cardinality(a.src) = Cardinality(b.src) /\ a.id < b.id)
+C31_First(S) == CHOOSE x \in S : \A y \in S \ {x} : C31_Before(x, y)
+RECURSIVE AlgoCoverFold(_, _)
+AlgoCoverFold(rest, cover) ==
+    IF rest = {} THEN cover
+    ELSE LET c == C31_First(rest) IN
+         AlgoCoverFold(rest \ {c}, IF \E p \in cover : c.src \subseteq p.src THEN cover ELSE cover \cup {c})
+AlgoDedupKeptIds(all) ==
+    UNION { { k.id : k \in AlgoCoverFold({ b \in all : b.grp = g }, {}) } : g \in { b.grp : b \in all } }
+
 =============================================================================
